@@ -1,5 +1,5 @@
 """C30 inter-thread queue (bundled FastFlow uMPMC_Ptr_Queue / uSWSR_Ptr_Buffer / SWSR_Ptr_Buffer)"""
-import os
+import os, re
 from vf.core import *
 ROOTS = ['vf_q_ctor', 'vf_q_init', 'vf_q_push', 'vf_q_pop', 'vf_u_ctor', 'vf_u_init', 'vf_u_push', 'vf_u_pop', 'vf_s_ctor', 'vf_s_init', 'vf_s_push', 'vf_s_pop']
 FUN = ['ff::uMPMC_Ptr_Queue::init/push/pop', 'abstraction_cas (IR cmpxchg)', 'ff::atomic_long_read/atomic_long_set', 'ff::uSWSR_Ptr_Buffer::uSWSR_Ptr_Buffer/init/push/pop/available',
@@ -12,6 +12,38 @@ PUSHQ = '_ZN2ff15uMPMC_Ptr_Queue4pushEPv'; POPQ = '_ZN2ff15uMPMC_Ptr_Queue3popEP
 def build(ctx):
     shim = ctx.build_ir('c30.cpp', 'cut')
     return ctx.translate(shim, ROOTS, 'c30.c', stubfiles=['common.stubs'], models=['stubs.c', 'ff_alloc.c'])
+
+TROOTS = ['vf_ts_setup', 'vf_ts_push', 'vf_ts_pop', 'vf_tq_setup', 'vf_tq_push', 'vf_tq_pop']
+def build_thr(ctx):
+    """translation for the threaded harnesses: same real functions, every data pointer type (LLVM i8*, here 'uint8_t*') replaced by the
+    integer type PAY in the generated part (payloads travel as integers; the functions only store, load and compare them with null)"""
+    shim = ctx.build_ir('c30t.cpp', 'cut')
+    info = ctx.translate(shim, TROOTS, 'c30t_ptr.c', stubfiles=['common.stubs', 'c30t.stubs'], models=['stubs.c', 'ff_alloc.c'])
+    txt = open(info['c']).read()
+    cut = txt.index('/* ---- model ')
+    gen = re.sub(r'uint8_t\s*\*', 'PAY ', txt[:cut])
+    gen = gen.replace('uint8_t st_usw_push(void*, void*);', 'uint8_t st_usw_push(void*, PAY);').replace('uint8_t st_usw_pop(void*, void*);', 'uint8_t st_usw_pop(void*, PAY*);')
+    gen = re.sub(r'st_usw_push\(\(void\*\)(\w+), \(void\*\)(\w+)\)', r'st_usw_push((void*)\1, \2)', gen)
+    gen = re.sub(r'st_usw_pop\(\(void\*\)(\w+), \(void\*\)(\w+)\)', r'st_usw_pop((void*)\1, \2)', gen)
+    models = txt[cut:]
+    # the allocation model is not reachable here (set-up without allocation); its prototypes in the generated part changed type, so drop the models
+    # that mention data pointers and keep base.c's runtime only
+    keep = models[:models.index('/* ---- model ', 5)] if models.count('/* ---- model ') > 1 else models
+    keep = re.sub(r'^uint\d+_t\s*\*?\s*x_(strlen|strcmp|memcmp|bcmp|memchr)\(.*$', '', keep, flags=re.M)
+    out = os.path.join(ctx.work, 'c30t.c')
+    open(out, 'w').write('#include <stdint.h>\ntypedef uint64_t PAY;\n' + gen + keep +
+                         '\nvoid x___assert_fail(PAY a, PAY b, uint32_t c, PAY d) { __CPROVER_assert(0, "assert() inside the code under test failed"); __CPROVER_assume(0); }\n')
+    return info
+
+SPIN = ('_ZN2ff15uMPMC_Ptr_Queue4pushEPv', '_ZN2ff15uMPMC_Ptr_Queue3popEPPv')
+def thr(ctx, name, what, defs, tier, bounds, timeout=600):
+    ctx.add(Harness(name, VERIF + '/harness/C30_thr.c', defines=['VF_THREADS', 'WHAT=%d' % what] + defs, unwind=2,
+                    unwindset=['main.0:9', 'main.1:9', 'main.2:10', 'main.3:10', 'producer.0:6', 'producer.1:4', 'consumer.0:6', '_ZN2ff15SWSR_Ptr_Buffer5resetEb.0:6', 'vf_tq_setup.0:4'],
+                    timeout=timeout, mem_gb=16, functions=FUN_T, stubs=STUBS_T, tier=tier, bounds=bounds,
+                    desc='exactly-once, per-producer order, empty/full only when justified, under every interleaving (SC)'))
+FUN_T = ['ff::SWSR_Ptr_Buffer::push/pop/inc/empty/available/reset', 'ff::uMPMC_Ptr_Queue::push/pop', 'abstraction_cas (cmpxchg as an atomic section)', 'ff::atomic_long_read/atomic_long_set']
+STUBS_T = ['data pointers translated as 64-bit integers (PAY)', 'uSWSR_Ptr_Buffer::push/pop below uMPMC_Ptr_Queue := atomic ring per sub-queue', 'queue set-up by shim code mirroring init without allocation',
+           'spin iterations beyond the unwinding bound are cut (stuttering steps); their unwinding assertions are not counted']
 
 def seq(ctx, name, layer, k, nq, sz, tier, timeout=600):
     lname = ['uMPMC_Ptr_Queue init(%d,%d)' % (nq, sz), 'uSWSR_Ptr_Buffer(%d)' % sz, 'SWSR_Ptr_Buffer(%d)' % sz][layer]
@@ -34,7 +66,20 @@ def run(ctx):
     seq(ctx, 'C30_seq_s_k8', 2, 8, 2, 3, 'thorough', 3000)
     ctx.assumptions += ['allocation never fails; freed memory is not reused (ABA through address reuse outside the claim); fresh memory reads as zero',
                         'sequential consistency; weak-memory effects (x86-TSO store buffering, the WMB() fences) outside the claim']
+    build_thr(ctx)
+    thr(ctx, 'C30_thr_swsr_2x2', 0, ['SZ=2', 'NPUSH=2', 'NPOP=2', 'TRIES=1'], 'quick', 'real SWSR_Ptr_Buffer ring of 2 slots: 1 producer x 2 pushes, 1 consumer x 2 pop attempts, all interleavings (SC)')
+    thr(ctx, 'C30_thr_mpmc_1_1_2', 1, ['NQ=2', 'P1PUSH=1', 'P2PUSH=1', 'NPOP=2'], 'quick', 'real uMPMC_Ptr_Queue push/pop over 2 sub-queues (atomic rings): 2 producers x 1 push, 1 consumer x 2 pop attempts, all interleavings (SC)')
+    thr(ctx, 'C30_thr_swsr_3x3', 0, ['SZ=2', 'NPUSH=3', 'NPOP=3', 'TRIES=2'], 'thorough', 'real SWSR_Ptr_Buffer ring of 2 slots: 1 producer x 3 pushes (2 tries each), 1 consumer x 3 pop attempts', 3000)
+    thr(ctx, 'C30_thr_mpmc_2_1_3', 1, ['NQ=2', 'P1PUSH=2', 'P2PUSH=1', 'NPOP=3'], 'thorough', 'real uMPMC_Ptr_Queue: producers 2 + 1 pushes, 1 consumer x 3 pop attempts', 3000)
+    thr(ctx, 'C30_thr_mpmc_2_2_4', 1, ['NQ=2', 'P1PUSH=2', 'P2PUSH=2', 'NPOP=4'], 'thorough', 'real uMPMC_Ptr_Queue: producers 2 + 2 pushes, 1 consumer x 4 pop attempts', 3000)
     ctx.solve(jobs=4)
+    for h in ctx.harnesses:                 # spin loops: iterations beyond the bound are stuttering steps, their unwinding assertions are expected to fail
+        r = h.result or {}
+        if 'C30_thr' in h.name and r.get('failed'):
+            spin = [f for f in r['failed'] if 'unwinding assertion' in (f.get('desc') or '') and (f.get('function') in SPIN)]
+            if spin:
+                r['failed'] = [f for f in r['failed'] if f not in spin]; r['spin_cut'] = len(spin)
+                if not r['failed']: r['status'] = 'pass'; r['discharged'] = r.get('discharged', 0) + len(spin)
     ctx.handle_failures(replay, kf)
     announce_known(ctx, kf, replay)
     return ctx.finish()
